@@ -382,10 +382,14 @@ def clamp_lemma(name, S, d, x):
     return st + "Proof. " + pf + ". Qed.\n"
 
 
+def cost(txt):
+    return 60 if "interval" in txt else 25
+
+
 def remembers_lemma(name, S, d, g):
     K = S["key"]
     return ("Lemma %s : get_distance (set_distance %s_c %s_e %s_lo %s_hi sim_init %s) = %s.\n"
-            "Proof. cbn [get_distance set_distance sim_distance]. lra. Qed.\n" % (name, K, K, K, K, lit(d), lit(g)))
+            "Proof. cbn [get_distance set_distance sim_distance]. first [reflexivity | lra]. Qed.\n" % (name, K, K, K, K, lit(d), lit(g)))
 
 
 # ---------------------------------------------------------------------------
@@ -421,6 +425,7 @@ def run(ctx):
         cv, cd = corpus_inputs()
         quick = ctx.tier != "thorough"
         lemmas = []          # (name, text, description)
+        sim_reading_every = 4 if quick else 1   # reading lemma at the helper's voltage: every 4th distance in quick
         passthrough_bad, vbad, dbad, gbad, mono_bad = [], [], [], [], []
         nv = nd = 0
         samples = []
@@ -469,8 +474,10 @@ def run(ctx):
                     gbad.append((K, d, g))
                 base = "d_%s_%d" % (K, nd)
                 lemmas.append((base + "u", volts_lemma(base + "u", S, d, u), "%s setDistance(%r) -> %r V" % (K, d, u)))
-                txt, _ = reading_lemma(base + "r", S, u, o[1])
-                lemmas.append((base + "r", txt, "%s getDistance() at %r V = %r (after setDistance(%r))" % (K, u, o[1], d)))
+                if nd % sim_reading_every == 0 or tag == "special":
+                    txt, _ = reading_lemma(base + "r", S, u, o[1])
+                    lemmas.append((base + "r", txt,
+                                   "%s getDistance() at %r V = %r (after setDistance(%r))" % (K, u, o[1], d)))
                 lemmas.append((base + "c", clamp_lemma(base + "c", S, d, o[1]),
                                "%s reads %r after setDistance(%r)" % (K, o[1], d)))
                 if finite(d) and finite(g):
@@ -489,8 +496,14 @@ def run(ctx):
         # ---- the lemma files, 16-way ------------------------------------
         nsh = 16 if quick else 64
         files, index = [], {}
+        # shards balanced by estimated cost (an interval goal ~60 ms, an lra-only lemma ~25 ms)
+        bins = [[0.0, []] for _ in range(nsh)]
+        for lem in sorted(lemmas, key=lambda l: -cost(l[1])):
+            b = min(bins, key=lambda b: b[0])
+            b[0] += cost(lem[1])
+            b[1].append(lem)
         for k in range(nsh):
-            part = lemmas[k::nsh]
+            part = bins[k][1]
             if not part:
                 continue
             text = HEADER
